@@ -43,6 +43,15 @@ def histories(tier):
         dec('truncated', bz2.compress(inputs.kind('N', 250000), 1)[:-7], valid=False)
     return hs
 
+def _nthr(c):
+    """threads of a cell: main, reader, writer and W workers; the copy pipeline has no workers"""
+    if any(a in ('-cdf',) for a in c.args) and c.leg.startswith('copy'):
+        return 3
+    for a in c.args:
+        if a.startswith('-n') and a[2:].isdigit():
+            return int(a[2:]) + 3
+    return 99
+
 def run(tier):
     chk = common.Check('C16', LEVEL, tier, quick_deadline=170, thorough_deadline=1700)
     quick = tier == 'quick'
@@ -117,6 +126,7 @@ def run(tier):
         wenv = 'eio,enospc,efbig,epipe'
         ex.add('crash-points', 'fast', h['args'], None, orc, h['name'],
                dict(opts, fenv='err,kill', sigs='int,term', wenv=wenv, renv='eio', senv='epipe,eio'), policies='P0,P2')
+    ex.run_priorities(_nthr, cells=ex.cells)
     done = 0
     for d in range(1, (2 if quick else 3) + 1):
         if not ex.run_pass(d):
